@@ -11,7 +11,8 @@
 //   - "kill": the follower is a victim process (this binary, sub-command
 //     victim-c16) under the ptrace supervisor; it is SIGKILLed immediately before
 //     the N-th file-system-mutating syscall under its output directory, the
-//     primary moves on while it is down, it is restarted, and must converge.
+//     primary moves on while it is down, it is restarted (thorough: as a new
+//     process; quick: the same Restore call inside the worker), and must converge.
 //     The replica is presented to the victim as a sequence of frozen stages of a
 //     real primary history (hard-link snapshots behind an atomically switched
 //     symlink), which makes the follower's syscall sequence reproducible so that
@@ -70,11 +71,13 @@ func init() {
 
 func cases(run *vf.Run) ([]json.RawMessage, error) {
 	var out []json.RawMessage
-	nHist, ops := 24, 50
-	scns, stages, parts, sample, double := 2, 5, 8, 40, 0
+	nHist, ops := 20, 50
+	scns, stages, parts, sample, double := 2, 5, 4, 40, 0
+	inproc := true // quick: the restarted follower runs inside the worker (one process start per kill run)
 	if run.Tier == "thorough" {
 		nHist, ops = 120, 80
 		scns, stages, parts, sample, double = 4, 6, 16, 0, 2
+		inproc = false
 	}
 	// demonstration history for F4 (pinned first)
 	{
@@ -85,7 +88,7 @@ func cases(run *vf.Run) ([]json.RawMessage, error) {
 	for sc := 0; sc < scns; sc++ {
 		seed := vf.SubSeed(run.Seed, "C16-scenario", sc)
 		for part := 0; part < parts; part++ {
-			out = append(out, vf.Spec(killSpec{Kind: "kill", Scn: sc + int(uint64(run.Seed)%15), Seed: seed, Stages: stages, Part: part, Parts: parts, Sample: sample, Double: double, Windows: part == 0}))
+			out = append(out, vf.Spec(killSpec{Kind: "kill", Scn: sc + int(uint64(run.Seed)%15), Seed: seed, Stages: stages, Part: part, Parts: parts, Sample: sample, Double: double, Windows: part == 0, InprocRestart: inproc}))
 		}
 	}
 	for i := 0; i < nHist; i++ {
